@@ -568,6 +568,9 @@ def d6(ctx, rep):
             if owner is not g and isinstance(seed_arg, ast.Name):
                 seed_arg = bind.get(seed_arg.id)
             good = isinstance(seed_arg, ast.Name) and seed_arg.id == seedp
+            if seed_arg is None and isinstance(a0, ast.Name) and (prog.resolve(owner.module, a0) or '') in prog.functions:
+                rep.bad('D6.scope', g, s.call, f'the scope is given the function `{a0.id}` where the random state belongs (arguments swapped?): the seed is not applied')
+                continue
             if seed_arg is None and not isinstance(a0, (ast.Constant, ast.Call)):
                 rep.undecided('D6.scope', g, s.call, f'what the scope is seeded with (`{short(a0, 40) if a0 is not None else "?"}`) is not derived')
                 continue
